@@ -12,9 +12,13 @@ r2=$(ls seeded | grep -E '^C[0-9]+_r2$')
 r3=$(ls seeded | grep -E '^C[0-9]+_r3$')
 r4=$(ls seeded | grep -E '^C[0-9]+_r4$')
 r5=$(ls seeded | grep -E '^C[0-9]+_r5$')
+r6=$(ls seeded | grep -E '^C[0-9]+_r6$')
+r7=$(ls seeded | grep -E '^C[0-9]+_r7$')
 [ "${ONLY:-}" = "r3" ] || run_batch $r1
 [ "${ONLY:-}" = "r3" ] || run_batch $r2
 run_batch $r3
 run_batch $r4
 run_batch $r5
+run_batch $r6
+run_batch $r7
 sort /tmp/mw/detect_all.txt
